@@ -173,6 +173,19 @@ class Module:
         self.close()
 
 
+def shadow_globals(mod, shadow):
+    """Bind module-level globals that are named like the callable's PARAMETERS to other values (``shadow``: raw inputs).
+
+    A lambda parameter hides a global of the same name, so a correct evaluation never reads these; an evaluation that
+    looks names up in the wrong order does."""
+    if not shadow:
+        return
+    built = GR.build_inputs(shadow)
+    for k in GR.ARGS:
+        if k in built:
+            mod.mod.__dict__[k] = built[k]
+
+
 def call(mod, role, is_async, inputs, order=None, npos=0):
     """Invoke the decorated callable; returns the exception raised (or None).
 
